@@ -318,6 +318,12 @@ def _process_properties(  # noqa: PLR0912, PLR0911
         if isinstance(prop_or_error, PropertyError):
             return prop_or_error
 
+    for name in required_set:
+        inherited_prop = properties.get(name)
+        if inherited_prop is not None and not inherited_prop.required:
+            # A property inherited through an allOf reference can be listed as required by this schema
+            properties[name] = evolve(inherited_prop, required=True)
+
     required_properties = []
     optional_properties = []
     for prop in properties.values():
